@@ -131,6 +131,24 @@ def oracle_scope(rep, cx, case):
             for r in each(res):
                 if not cx.default:
                     chk('search(%r)' % form, r, sel)
+    # Wordnet.ilis(): exactly the ILIs of the synsets of the selection — the real ones as a set of ids, the proposed ones
+    # (ili="in") one per proposing synset of the selection, with that synset's ILIDefinition
+    if not cx.default and ob.get('ilis', ['err'])[0] == 'ok':
+        uni = cx.uni
+        real, proposed = set(), []
+        for sp in cx.sel:
+            for ss in uni.synsets(sp):
+                if ss['ili'] == 'in':
+                    idf = ss.get('ili_definition')
+                    proposed.append(idf['text'] if idf else None)
+                elif ss['ili']:
+                    real.add(ss['ili'])
+        got_real = {r[1] for r in ob['ilis'][1] if r[1] is not None}
+        got_prop = sorted((r[3] or '') for r in ob['ilis'][1] if r[1] is None)
+        if got_real != real or got_prop != sorted((p_ or '') for p_ in proposed):
+            rep.fail('Wordnet.ilis() does not list exactly the ILIs (real and proposed) of the selected lexicons\' synsets', case,
+                     {'real_got': sorted(got_real), 'real_expected': sorted(real), 'proposed_got': got_prop,
+                      'proposed_expected': sorted((p_ or '') for p_ in proposed)})
 
 
 # ------------------------------------------------------------------ C09
